@@ -400,6 +400,10 @@ def r_reg_fresh(ck: Checker) -> None:
             if elt == norm(g.target) and (f"in({elt},{REG})", False) in [t for t in tests if t] or (k_none(f"{REG}.get({elt})"), True) in [t for t in tests if t]:
                 verdicts.append("proven")  # the first element of the stream that is not registered
                 continue
+            if elt == norm(g.target) and any(isinstance(c, ast.UnaryOp) and isinstance(c.op, ast.Not) and norm(c.operand) in (f"{REG}.get({elt})", f"{REG}.get({elt}, None)")
+                                             for c in g.ifs):
+                verdicts.append("truthiness")
+                continue
             verdicts.append("unknown")
             continue
         vt = norm(v)
